@@ -7,6 +7,7 @@ import RactorModel.Lemmas.FactoryActors
 import RactorModel.Lemmas.FactoryNoPanic
 import RactorModel.Lemmas.FactoryNoDrop
 import RactorModel.Lemmas.FactoryPort
+import RactorModel.Lemmas.FactoryReason
 
 /-!
 # C13 — Factory: every job meets exactly one fate, never runs twice
@@ -583,6 +584,34 @@ theorem acceptance_port_no_unrequested_answer (c : CaseCfg) (steps : List Step) 
   omega
 
 
+/-! ## Round 4, wave 2: discard reasons over whole runs -/
+
+/-- (reason soundness, RateLimited) For every case, EVERY op sequence and schedule: a discard-handler call with reason
+`RateLimited` occurs only in a factory whose router is wrapped in a rate limiter — no other branch of the factory or of a
+worker reports that reason. -/
+theorem rate_limited_discard_needs_limiter (c : CaseCfg) (steps : List Step) (id : Nat) (h : Option Nat)
+    (hm : Ev.discard .rateLimited id h ∈ ((init c).runSteps steps).env.log) : c.rl.isSome = true :=
+  rate_limited_needs_limiter_run c steps id h hm
+
+/-- (reason soundness, Shutdown) For every case, EVERY op sequence and schedule: every discard-handler call with reason
+`Shutdown` comes, in the history, AFTER the draining hook — only a factory that has handled `DrainRequests` refuses or
+abandons a job for shutdown; a job that merely expired or was shed before that is never reported as `Shutdown`. -/
+theorem shutdown_discard_only_after_drain (c : CaseCfg) (steps : List Step) (id : Nat) (h : Option Nat) (pre post : List Ev)
+    (hs : ((init c).runSteps steps).env.log = pre ++ Ev.discard .shutdown id h :: post) : Ev.hook .draining ∈ pre :=
+  shutdown_after_drain_run c steps id h pre post hs
+
+/-- corollary: a factory that was never asked to drain reports no `Shutdown` discard -/
+theorem no_shutdown_discard_without_drain (c : CaseCfg) (steps : List Step) (id : Nat) (h : Option Nat)
+    (hn : Ev.hook .draining ∉ ((init c).runSteps steps).env.log) :
+    Ev.discard .shutdown id h ∉ ((init c).runSteps steps).env.log := by
+  intro hm
+  obtain ⟨pre, post, hs⟩ := List.append_of_mem hm
+  exact hn (by rw [hs]; exact List.mem_append_left _ (shutdown_discard_only_after_drain c steps id h pre post hs))
+
+/-- non-vacuity: the drain demo above (`shrinkDrainCase`) followed by one more dispatch reports it as `Shutdown` -/
+example : (((init shrinkDrainCase).runSteps (shrinkDrainSteps.take 5 ++ [⟨.dispatch 9 1 0 none false, 11000000, 12000000, 13000000⟩])).env.log.filterMap
+    fun | .discard r i _ => some (r, i) | _ => none) = [(.shutdown, 9)] := by decide +kernel
+
 /-- non-vacuity: plain queuer, one worker, factory queue limit 1 / Newest; three port-carrying dispatches: the first is
 handed to the worker (accepted), the second is queued (accepted), the third is shed (handed back) -/
 def portDemoCase : CaseCfg :=
@@ -630,3 +659,6 @@ end C13
 #print axioms C13.acceptance_port_never_both
 #print axioms C13.acceptance_port_answered_exactly_once
 #print axioms C13.acceptance_port_no_unrequested_answer
+#print axioms C13.rate_limited_discard_needs_limiter
+#print axioms C13.shutdown_discard_only_after_drain
+#print axioms C13.no_shutdown_discard_without_drain
